@@ -300,9 +300,24 @@ def cross_check_unsat(assertions, res):
     return None
 
 
+class IndexObj:
+    """an index that is not an int: what numpy integers and friends are to list-like code"""
+    __slots__ = ("i",)
+
+    def __init__(self, i):
+        self.i = int(i)
+
+    def __index__(self):
+        return self.i
+
+    def __repr__(self):
+        return "IndexObj(%d)" % self.i
+
+
 class Concrete:
     """Concrete-mode context: same interface as Explorer, values come from a model."""
     sym = False
+    index_objects = False
 
     def __init__(self, values):
         self.values = values
